@@ -1,4 +1,5 @@
 //! Shared machinery of the mahf runtime monitors (see /verif/DESIGN.md).
+pub mod c01model;
 pub mod observe;
 pub mod problems;
 pub mod report;
